@@ -26,14 +26,15 @@ func init() {
 // byte-level faults (C02)
 
 type vByteFaulter struct {
-	rc    *runCtx
-	pm    int
-	max   int
-	fired int
-	armed func() bool
-	log   []string
-	fr    *vFirer
-	lens  []int // length of every candidate place (enumeration base runs)
+	rc       *runCtx
+	pm       int
+	max      int
+	fired    int
+	armed    func() bool
+	log      []string
+	fr       *vFirer
+	lens     []int // length of every candidate place (enumeration base runs)
+	dataBias bool  // more of the faults are single flipped bits inside the payload of longer writes
 }
 
 func (f *vByteFaulter) mangle(l *verifsim.Link, data []byte) []byte {
@@ -62,6 +63,16 @@ func (f *vByteFaulter) mangle(l *verifsim.Link, data []byte) []byte {
 		out[abs] ^= 1 << uint(bit&7)
 		f.rc.fault("byte-flip")
 		f.log = append(f.log, fmt.Sprintf("flip bit %d of byte %d/%d of %s on %s", bit&7, abs, len(data), vQuote(data, 24), l.Name))
+		return out
+	}
+	if f.dataBias && len(data) > 40 && tp.Bool("bf.databias", 600) {
+		// a bit inside the payload of a longer write: on a raw (tunnel, binary) stream nothing but the digest sees it
+		pos := 20 + tp.Draw("bf.dpos", len(data)-21)
+		out := append([]byte(nil), data...)
+		out[pos] ^= 1 << uint(tp.Draw("bf.bit", 8))
+		f.fired++
+		f.rc.fault("byte-flip")
+		f.log = append(f.log, fmt.Sprintf("flip %s at %d/%d of %s", l.Name, pos, len(data), vQuote(data, 70)))
 		return out
 	}
 	// position: biased towards the structural bytes of a protocol line
@@ -247,8 +258,18 @@ func vSmallXfer(rc *runCtx, timeouts []int) (*vXferConfig, *xferOpts, vSnap) {
 func vScenarioC02(rc *runCtx) {
 	tp := rc.tape
 	cfg, o, before := vSmallXfer(rc, []int{5, 20})
+	// the connection may be the tunnel: its bytes can be damaged like any others
+	if _, enum := rc.enumInt("enum_k"); !enum && rc.param("resume", "") != "1" && tp.Bool("bf.tunnel", 150) {
+		o.tunnel = true
+		rc.fault("tunnel-carries-the-transfer")
+		if tp.Bool("bf.tunnelnocomp", 500) {
+			cfg.compress = "no"
+			o.flags = cfg.flags()
+			rc.res.Scenario["flags"] = strings.Join(o.flags, " ")
+		}
+	}
 	x := newXferWorld(rc, o)
-	bf := &vByteFaulter{rc: rc, pm: []int{30, 80, 200}[tp.Draw("bf.rate", 3)], max: 1 + tp.Pick("bf.max", 6, 2, 1)}
+	bf := &vByteFaulter{rc: rc, pm: []int{30, 80, 200}[tp.Draw("bf.rate", 3)], max: 1 + tp.Pick("bf.max", 6, 2, 1), dataBias: o.tunnel}
 	if _, ok := rc.enumInt("enum_k"); ok {
 		bf.max = 1
 	}
@@ -273,6 +294,18 @@ func vScenarioC02(rc *runCtx) {
 	if dirs == 1 || dirs == 2 {
 		attach(x.down[hop])
 	}
+	x.onTunnel = append(x.onTunnel, func(h int, c *verifsim.Conn) {
+		if h != hop {
+			return
+		}
+		// (the dialling end's writes travel towards the server)
+		if dirs == 0 || dirs == 2 {
+			attach(c.Wr)
+		}
+		if dirs == 1 || dirs == 2 {
+			attach(c.R)
+		}
+	})
 	// tail truncation of a whole stream: from the moment the other direction carries a digest line (or its k-th
 	// write) everything one direction still has to say is lost - alone or on top of the byte faults above
 	if _, enum := rc.enumInt("enum_k"); !enum && tp.Bool("bf.cutstream", 150) {
